@@ -262,6 +262,17 @@ async def main(args):
                     stall_points += 1
                 except Exception:
                     pass
+        # tunnels through the QUIC hop (client -> C -> quic -> A -> blaster) whose reader stopped: megabytes pile up on ONE stream of
+        # the shared QUIC connection; the other streams of that connection (the "quic" probes) must keep working
+        for _ in range(2):
+            try:
+                c = await open_conn("127.0.0.1", P["C.http"], rcvbuf=4096)
+                c.w.transport.pause_reading()
+                await http_connect(c, "127.0.0.1", blaster.port)
+                held.append(c)
+                stall_points += 1
+            except Exception:
+                pass
         # requests that hang inside a connector because the upstream proxy stalls (after TCP accept: CONNECT never answered,
         # SOCKS greeting never answered, TLS handshake never answered)
         for tport in (9101, 9102, 9103):
